@@ -227,7 +227,7 @@ _cases_h = cases
 def cases(tier):  # noqa: F811
     out = _cases_h(tier)
     quick = tier == "quick"
-    lin = [(1, 0, False), (1, 2, True), (2, 1, True), (2, 2, False)] if quick else [
+    lin = [(1, 0, False), (1, 2, True), (2, 1, True), (2, 2, False), (3, 1, True)] if quick else [  # n=3 in quick since seed C16d
         (1, 0, False), (1, 3, True), (2, 1, True), (2, 2, False), (2, 3, True), (3, 1, True), (3, 2, False)
     ]
     for n, k, ph in lin:
